@@ -95,13 +95,14 @@ def ensure_facts(config='q'):
         except OSError:
             pass
         return out, th, 0.0
-    lockf = open(os.path.join(CACHE, f'lock-{config}'), 'w')
+    lane = os.environ.get('VERIF_LANE', '')     # parallel lanes (tools/seed_detect.py) build in target directories of their own
+    lockf = open(os.path.join(CACHE, f'lock-{config}{lane}'), 'w')
     fcntl.flock(lockf, fcntl.LOCK_EX)
     try:
         if os.path.exists(out):
             return out, th, 0.0
         t0 = time.time()
-        target = os.path.join(CACHE, f'target-{config}')
+        target = os.path.join(CACHE, f'target-{config}{lane}')
         # cargo's freshness cache would skip the wrapper: drop the member's fingerprints
         fpdir = os.path.join(target, 'debug', '.fingerprint')
         if os.path.isdir(fpdir):
